@@ -16,18 +16,19 @@ import (
 )
 
 type Env struct {
-	e      *Encoder
-	fr     *frame // frame whose locals may be named (nil at call sites)
-	ct     *Contract
-	vars   map[string]*SVal
-	st     *State
-	old    *State
-	loop   *loopInfo
-	bound  map[string]*Term
-	info   *types.Info
-	inOld  bool
-	result *SVal
+	e        *Encoder
+	fr       *frame // frame whose locals may be named (nil at call sites)
+	ct       *Contract
+	vars     map[string]*SVal
+	st       *State
+	old      *State
+	loop     *loopInfo
+	bound    map[string]*Term
+	info     *types.Info
+	inOld    bool
+	result   *SVal
 	callSite bool
+	callArgs []*SVal // at-call clauses: the arguments of the call
 }
 
 // contractEnv builds the environment for evaluating ct's clauses. args are
@@ -766,6 +767,16 @@ func (env *Env) call(n *ast.CallExpr) *SVal {
 	}
 	fun := n.Fun
 	if ix, ok := fun.(*ast.IndexExpr); ok {
+		if id, ok := ix.X.(*ast.Ident); ok && id.Name == "arg" {
+			k := 0
+			if cv := env.constant(n.Args[0]); cv != nil {
+				k = int(cv.T.V)
+			}
+			if k >= len(env.callArgs) || env.callArgs[k] == nil {
+				env.fail(n, "arg[T](k) used outside an at-call clause or out of range")
+			}
+			return env.callArgs[k]
+		}
 		if id, ok := ix.X.(*ast.Ident); ok && id.Name == "res" {
 			k := 0
 			if cv := env.constant(n.Args[0]); cv != nil {
@@ -909,13 +920,14 @@ func (env *Env) call(n *ast.CallExpr) *SVal {
 					_, wantPtr = r.Type().Underlying().(*types.Pointer)
 				}
 				if wantPtr && recv.K != KPtr {
-					env.fail(n, "pointer-receiver method on a value")
+					// addressable operand: &x.f
+					recv = e.ptrTo(env.addr(f.X))
 				}
 				if !wantPtr && recv.K == KPtr {
 					recv = e.load(env.state(), e.addrOf(recv))
 				}
 			} else if recv.K == KIface {
-				if impls := e.w.implementers(rt, m); len(n.Args) == 0 && len(impls) > 0 && len(impls) <= 6 {
+				if impls := e.w.implementers(rt, m); len(impls) > 0 && len(impls) <= 6 {
 					// closed-world dispatch, as for the code's own calls
 					var res *SVal
 					for i := len(impls) - 1; i >= 0; i-- {
@@ -928,9 +940,17 @@ func (env *Env) call(n *ast.CallExpr) *SVal {
 						if _, isPtr := T.Underlying().(*types.Pointer); isPtr {
 							rv = &SVal{K: KPtr, Typ: T, T: recv.T}
 						} else {
-							rv = e.load(env.state(), e.cellAddr(recv.T, T))
+							rv = e.load(env.state(), e.boxAddr(recv.T, T))
 						}
-						r := e.callPure(cal, []*SVal{rv}, env.state())
+						cargs := []*SVal{rv}
+						for i, a := range n.Args {
+							av := env.tr(a)
+							if i < cal.Signature.Params().Len() {
+								av = e.coerce(env.retypeConst(av, cal.Signature.Params().At(i).Type()), cal.Signature.Params().At(i).Type())
+							}
+							cargs = append(cargs, av)
+						}
+						r := e.callPure(cal, cargs, env.state())
 						if res == nil {
 							res = r
 						} else {
